@@ -67,6 +67,10 @@ class PatchConflict(BzrError):
             patch_line: Expected line content from patch.
         """
         self.line_no = line_no
+        if isinstance(orig_line, bytes):
+            orig_line = orig_line.decode("utf-8", "replace")
+        if isinstance(patch_line, bytes):
+            patch_line = patch_line.decode("utf-8", "replace")
         self.orig_line = orig_line.rstrip("\n")
         self.patch_line = patch_line.rstrip("\n")
 
@@ -641,7 +645,11 @@ def iter_patched_from_hunks(orig_lines, hunks):
         orig_lines = iter(orig_lines)
     for hunk in hunks:
         while line_no < hunk.orig_pos:
-            orig_line = next(orig_lines)
+            try:
+                orig_line = next(orig_lines)
+            except StopIteration as e:
+                # The text ends before the position this hunk applies to.
+                raise PatchConflict(line_no, b"", hunk.get_header()) from e
             yield orig_line
             line_no += 1
         for hunk_line in hunk.lines:
@@ -649,7 +657,11 @@ def iter_patched_from_hunks(orig_lines, hunks):
             if isinstance(hunk_line, InsertLine):
                 yield hunk_line.contents
             elif isinstance(hunk_line, (ContextLine, RemoveLine)):
-                orig_line = next(orig_lines)
+                try:
+                    orig_line = next(orig_lines)
+                except StopIteration as e:
+                    # The text ends before the lines this hunk expects.
+                    raise PatchConflict(line_no, b"", b"".join(seen_patch)) from e
                 if orig_line != hunk_line.contents:
                     raise PatchConflict(line_no, orig_line, b"".join(seen_patch))
                 if isinstance(hunk_line, ContextLine):
